@@ -203,6 +203,10 @@ def r4_4(cx):
     for f in targets:
         for variant, want in (('Ok', False), ('Err', True)):
             sites = [p for p, e in agg_sites(f, variant=variant, local=0)]
+            if not sites:
+                # the result built in a spliced helper and moved into the return place: the aggregates the return
+                # value can be, wherever they are assigned
+                sites = [a.strip().pos for a in phi_alts(f.local_expr(0, [])) if a.strip().kind == 'agg' and a.strip().info.get('variant') == variant and a.strip().pos is not None]
             cx.count_sites()
             ok = len(sites) == 1 and any(val is want and is_call(e, hp) for e, val, ed in f.facts_at(sites[0].bb))
             cx.check(ok, '%s:%s' % (short(f.name)[-40:], variant), f, f.loc(sites[0].bb) if sites else None,
@@ -233,7 +237,10 @@ def r4_5(cx):
             fl = [f['n'] for f in adt['variants'][0]['fields']]
             si, bg, ln = (info.args[fl.index(n)].strip() for n in ('slice_index', 'begin', 'len'))
             cx.check(is_call(si, GD + '::last_logical_slice_index'), 'slice_index', rp, None, 'slice_index = last_logical_slice_index()', fail_detail='slice_index is %s' % show(si)[:80])
-            okb = bg.kind == 'binop' and bg.op == 'Sub' and bg.a.has_call(GD + '::last_slice') and (is_call(bg.b, 'len') and bg.b.strip().args[0].strip().kind == 'param')
+            # (the pattern length may come through NonZeroUsize::new(pattern.len()) .. .get())
+            okb = bg.kind == 'binop' and bg.op == 'Sub' and bg.a.has_call(GD + '::last_slice') and \
+                any(is_call(n, 'len') and n.args[0].strip().kind == 'param' and n.args[0].strip().info['i'] != 1 for n in bg.b.walk()) and \
+                not any(n.kind == 'binop' for n in bg.b.walk()) and all(c.op.rsplit('::', 1)[-1] in ('len', 'get', 'new', 'unwrap', 'expect', 'branch') for c in bg.b.calls())
             cx.check(okb, 'begin', rp, None, 'begin = len(last_slice()) - pattern.len()', fail_detail='begin is %s' % show(bg)[:100])
             cx.check(any(is_call(n, 'len') and n.strip().args[0].strip().kind == 'param' for n in ln.walk()), 'len', rp, None, 'len = pattern.len()', fail_detail='len is %s' % show(ln)[:80])
             # all three reads happen after the push
